@@ -28,7 +28,7 @@ type GenOpts struct {
 func DefaultOpts() GenOpts {
 	return GenOpts{MaxTasks: 10, PredPct: 20, FallbackPct: 20, InstrPct: 30,
 		Spellings:  []int{SpLit, SpLit, SpLit, SpTop, SpMethod, SpVar, SpGeneric},
-		Kinds:      []TKind{KNamedInt, KNamedInt, KStruct, KPtr, KSlice, KMap, KGeneric, KNamedSlice, KU64, KI64, KStr, KArr},
+		Kinds:      []TKind{KNamedInt, KNamedInt, KStruct, KPtr, KSlice, KMap, KGeneric, KNamedSlice, KU64, KI64, KStr, KArr, KBytes, KAny, KFuncT},
 		WrapPct:    40,
 		BarePct:    12,
 		ImportPct:  20,
@@ -50,7 +50,7 @@ type flowGen struct {
 func (g *flowGen) newType() int {
 	for {
 		k := g.o.Kinds[g.r.Intn(len(g.o.Kinds))]
-		if k >= KU64 && k <= KArr {
+		if k.Unnamed() {
 			if g.basic[k] {
 				continue
 			}
@@ -253,13 +253,28 @@ func (g *flowGen) importize() {
 		}
 	}
 	moved := map[*Fn]bool{}
+	movable := func(fn *Fn) bool { // the helper package spells only some kinds
+		for _, t := range append(append([]int{}, fn.Ins...), fn.Outs...) {
+			if p.Types[t] >= KBytes {
+				return false
+			}
+		}
+		return true
+	}
+	var cands []*Fn
 	for _, fn := range fns {
-		if r.Chance(1, 2) {
-			moved[fn] = true
+		if movable(fn) {
+			cands = append(cands, fn)
+			if r.Chance(1, 2) {
+				moved[fn] = true
+			}
 		}
 	}
+	if len(cands) == 0 {
+		return
+	}
 	if len(moved) == 0 {
-		moved[fns[r.Intn(len(fns))]] = true
+		moved[cands[r.Intn(len(cands))]] = true
 	}
 	touchedByMoved := map[int]bool{}
 	namedByFile := map[int]bool{}
